@@ -4,6 +4,7 @@ package props
 // (DESIGN.md section 3.1).
 
 import (
+	"bytes"
 	"encoding/json"
 	mxj "github.com/clbanning/mxj/v2"
 	"reflect"
@@ -24,7 +25,10 @@ var shapeKeys = []string{"a", "b", "c", "d", "k", "list", "sub", "items"}
 
 // oddKeys: legal keys with spellings that the library treats specially somewhere (reserved words of the encoders,
 // attribute/text prefixes, upper case, digits, hyphens, non-ASCII letters); used for about one field in twelve.
-var oddKeys = []string{"doc", "object", "element", "-id", "#text", "K", "k1", "ключ", "a-b", "_seq", "#seq", "-", "A", "a]", "Doc", "k ", " k", "k\t", "\u00a0k", "k\u2028", "0", "1", "k%d"}
+var oddKeys = []string{"doc", "object", "element", "-id", "#text", "K", "k1", "ключ", "a-b", "_seq", "#seq", "-", "A", "a]", "Doc", "k ", " k", "k\t", "\u00a0k", "k\u2028", "0", "1", "k%d",
+	// keys that a path, sub-key or pair language with a few more features could mistake for syntax: a trailing backslash
+	// (an escape?), a leading @ $ ~ = (attribute shorthand, reference, operator?), all digits (an index?)
+	"k\\", "@type", "$ref", "~k", "=k", "2023", "a,b", "k?"}
 
 func drawFieldKey(t *rapid.T) string {
 	if rapid.IntRange(0, 11).Draw(t, "oddkey") == 0 {
@@ -62,7 +66,8 @@ func genRootShape(t *rapid.T, lil bool) *shape {
 	return s
 }
 
-var scalarStrings = []string{"x", "y", "", "z z", "5%", "%d"}
+// incl. strings that look like a literal of another type or like an operator of a richer condition language
+var scalarStrings = []string{"x", "y", "", "z z", "5%", "%d", "Infinity", "-Infinity", "NaN", "null", "4111111111111111", ">5", "~a", "2023", "1.0", "x/y"}
 
 func instScalar(t *rapid.T) interface{} {
 	switch rapid.IntRange(0, 5).Draw(t, "sc") {
@@ -682,4 +687,95 @@ func wrapDeep(t *rapid.T, m map[string]interface{}, steps []Step) (map[string]in
 		return m, nil
 	}
 	return m, append(pre, steps...)
+}
+
+// colonize renames one key k of one map inside m to "ns:"+k: a key with a namespace-like prefix is a different key, a
+// path step k must not find it.
+func colonize(t *rapid.T, m map[string]interface{}) {
+	var maps []map[string]interface{}
+	var walk func(v interface{})
+	walk = func(v interface{}) {
+		switch x := v.(type) {
+		case map[string]interface{}:
+			if len(x) > 0 {
+				maps = append(maps, x)
+			}
+			for _, k := range sortedKeys(x) {
+				walk(x[k])
+			}
+		case []interface{}:
+			for _, e := range x {
+				walk(e)
+			}
+		}
+	}
+	walk(m)
+	if len(maps) == 0 {
+		return
+	}
+	tm := maps[rapid.IntRange(0, len(maps)-1).Draw(t, "colonmap")]
+	ks := sortedKeys(tm)
+	k := ks[rapid.IntRange(0, len(ks)-1).Draw(t, "colonkey")]
+	if k == "" || strings.Contains(k, ":") {
+		return
+	}
+	if _, clash := tm["ns:"+k]; clash {
+		return
+	}
+	tm["ns:"+k] = tm[k]
+	delete(tm, k)
+}
+
+// respellJSON rewrites a JSON text into another text of the same meaning, the way other producers spell it:
+// mode&1: `/` inside strings as `\/`; mode&2: the letter a inside strings as `\u0061`; mode&4: integer literals as
+// `N.0`; mode&8: a blank after every `,` and `:` outside strings. encoding/json decodes both texts to the same value
+// (with UseNumber the number spelling is what the caller gets, which is why the reference always decodes the respelled
+// text itself).
+func respellJSON(b []byte, mode int) []byte {
+	var out []byte
+	inStr, esc := false, false
+	for i := 0; i < len(b); i++ {
+		c := b[i]
+		if inStr {
+			switch {
+			case esc:
+				esc = false
+				out = append(out, c)
+			case c == '\\':
+				esc = true
+				out = append(out, c)
+			case c == '"':
+				inStr = false
+				out = append(out, c)
+			case c == '/' && mode&1 != 0:
+				out = append(out, '\\', '/')
+			case c == 'a' && mode&2 != 0:
+				out = append(out, []byte("\\u0061")...)
+			default:
+				out = append(out, c)
+			}
+			continue
+		}
+		switch {
+		case c == '"':
+			inStr = true
+			out = append(out, c)
+		case (c == '-' || (c >= '0' && c <= '9')) && mode&4 != 0:
+			j := i
+			for j < len(b) && strings.IndexByte("+-0123456789.eE", b[j]) >= 0 {
+				j++
+			}
+			tok := b[i:j]
+			out = append(out, tok...)
+			if bytes.IndexAny(tok, ".eE") < 0 && len(tok) > 0 && tok[len(tok)-1] != '-' {
+				out = append(out, '.', '0')
+			}
+			i = j - 1
+		case (c == ',' || c == ':') && mode&8 != 0:
+			out = append(out, c, ' ')
+		default:
+			out = append(out, c)
+		}
+	}
+	return out
 }
